@@ -25,7 +25,7 @@ func pathParamsYAML(tpl string) string {
 	var ps []string
 	for _, s := range splitTemplate(tpl) {
 		if s.IsVar {
-			ps = append(ps, fmt.Sprintf("{in: path, name: %s, required: true, schema: {type: string}}", s.Var))
+			ps = append(ps, fmt.Sprintf("{in: path, name: %q, required: true, schema: {type: string}}", s.Var))
 		}
 	}
 	if len(ps) == 0 {
